@@ -200,6 +200,43 @@ class Body:
                 st.append(s)
         return seen
 
+    def discr_switches(self):
+        """[(block, stmt index of the discriminant read, place key, [(value, variant name)])] for
+        switches on an enum discriminant read in the same block"""
+        if getattr(self, "_dsw", None) is None:
+            from terms import place_key
+            out = []
+            for bi in self.rpo():
+                bb = self.blocks[bi]
+                if bb["term"]["k"] != "switch":
+                    continue
+                for si in range(len(bb["stmts"]) - 1, -1, -1):
+                    st = bb["stmts"][si]
+                    if st["k"] == "assign" and st["rv"]["k"] == "discr":
+                        op = bb["term"]["op"]
+                        if op["k"] in ("copy", "move") and op["place"]["l"] == st["place"]["l"]:
+                            out.append((bi, si, place_key(st["rv"]["place"]), st["rv"]["variants"]))
+                        break
+            self._dsw = out
+        return self._dsw
+
+    def pruned_multi(self, fixed):
+        """copy of this body in which the switch of block b is replaced by `goto fixed[b]`"""
+        if not fixed:
+            return self
+        cache = self.__dict__.setdefault("_pruned_cache", {})
+        k = tuple(sorted(fixed.items()))
+        if k not in cache:
+            j = dict(self.j)
+            blocks = list(j["blocks"])
+            for b, tg in fixed.items():
+                bb = dict(blocks[b])
+                bb["term"] = {"k": "goto", "t": tg}
+                blocks[b] = bb
+            j["blocks"] = blocks
+            cache[k] = Body(j, self.facts)
+        return cache[k]
+
     def live_blocks(self):
         if getattr(self, "_live", None) is None:
             self._live = self.reachable(0)
